@@ -119,6 +119,13 @@ func catalogue(w *world, check string) []kase {
 								mut := faults.Mut{Path: nd.Path, Op: pref + "@one-recipient"}
 								out = append(out, kase{Scenario: w.sc, Deviator: d, Slot: es, Path: nd.Path, Op: mut.Op, Menu: menu,
 									fault: faults.ContentFault(es, mut, v, mode)})
+								if !expensive {
+									// the same equivocation with the deviator's messages to that recipient arriving last: the other
+									// honest parties' next-round messages are then queued at the recipient and processed as a batch
+									lf := faults.ContentFault(es, faults.Mut{Path: nd.Path, Op: mut.Op + "@late"}, v, mode)
+									lf.Timing = "late"
+									out = append(out, kase{Scenario: w.sc, Deviator: d, Slot: es, Path: nd.Path, Op: mut.Op + "@late", Menu: menu, fault: lf})
+								}
 								break
 							}
 						}
